@@ -3,7 +3,7 @@
 # applies a seeded change to /repo, runs the named checks, restores /repo.  Never commits.
 set -u
 PATCH="$1"; TIER="$2"; shift 2
-cd /verif
+cd "$(dirname "$0")/.."
 if ! git -C /repo diff --quiet; then echo "/repo has uncommitted changes; refusing"; exit 2; fi
 git -C /repo apply "$PATCH" || { echo "patch does not apply"; exit 2; }
 trap 'git -C /repo checkout -- . ; git -C /repo clean -fdq -- runtime codegen cli macro 2>/dev/null' EXIT
